@@ -149,9 +149,36 @@ func vChaosPod(rng *rand.Rand, id string) *vPod {
 }
 
 // vChaosCtr builds the NRI container message, sometimes without optional sub-messages.
+// vDevSweep is a counter walking systematically through all shapes of a device cgroup rule (type x optional major x optional
+// minor x access x allow) against a container's devices: which rule shape a run meets must not depend on the dice
+var vDevSweep int
+
+func vDeviceRules(k int) []*api.LinuxDeviceCgroup {
+	types := []string{"a", "c", "b", ""}
+	opt := func(sel int, same int64) *api.OptionalInt64 {
+		switch sel {
+		case 0:
+			return nil
+		case 1:
+			return &api.OptionalInt64{Value: same}
+		}
+		return &api.OptionalInt64{Value: same + 7}
+	}
+	acc := []string{"rwm", "m", "r", ""}
+	r := &api.LinuxDeviceCgroup{Type: types[k%4], Major: opt((k/4)%3, 136), Minor: opt((k/12)%3, 0), Access: acc[(k/36)%4], Allow: (k/144)%2 == 0}
+	rules := []*api.LinuxDeviceCgroup{r}
+	if (k/288)%2 == 1 { // preceded by the runtime's usual deny-all
+		rules = append([]*api.LinuxDeviceCgroup{{Allow: false, Type: "a", Access: "rwm"}}, rules...)
+	}
+	if (k/576)%2 == 1 { // a nil element cannot occur on the wire; an all-absent rule can
+		rules = append(rules, &api.LinuxDeviceCgroup{})
+	}
+	return rules
+}
+
 func vChaosCtr(rng *rand.Rand, c *vCtr) *api.Container {
 	nc := c.nri()
-	switch rng.Intn(12) {
+	switch rng.Intn(14) {
 	case 0:
 		nc.Linux = nil
 	case 1:
@@ -173,6 +200,16 @@ func vChaosCtr(rng *rand.Rand, c *vCtr) *api.Container {
 		nc.Mounts = []*api.Mount{{Destination: "/x", Source: "/nonexistent/" + strings.Repeat("y", 300), Type: "bind"}}
 	case 9:
 		nc.Linux.Devices = []*api.LinuxDevice{{Path: "/dev/nonexistent", Type: "b", Major: 999, Minor: 999}}
+	case 10, 11, 12:
+		// devices with device cgroup rules whose optional numbers are present or absent (the cache derives topology hints from
+		// the devices a container may write to)
+		nc.Linux.Devices = []*api.LinuxDevice{{Path: "/dev/pts/0", Type: "c", Major: 136, Minor: 0}, {Path: "/dev/null", Type: "c", Major: 1, Minor: 3},
+			{Path: "/dev/sdz", Type: "b", Major: 136, Minor: 0}}
+		if nc.Linux.Resources == nil {
+			nc.Linux.Resources = &api.LinuxResources{}
+		}
+		nc.Linux.Resources.Devices = vDeviceRules(vDevSweep)
+		vDevSweep++
 	}
 	return nc
 }
